@@ -108,7 +108,97 @@ theorem execute_loop_first_stop {σ τ} (run : σ → τ → σ × Flow × Bool)
 theorem execute_loop_empty {σ τ} (run : σ → τ → σ × Flow × Bool) (s : σ) :
     Gen.executeLoop run s [] = (s, Flow.terminate, true) := rfl
 
+/-! ## an internal failure (a panic inside a statement) is an ending by error -/
+
+/-- the deferred function can change what execute returns: the results are NAMED, and what it assigns are exactly
+    those names — regenerated from the signature and the deferred function literal -/
+theorem gen_recover_can_set_results :
+    Gen.executeHasNamedResults = true ∧ Gen.executeResultNames = ["flow", "err"] ∧ Gen.deferAssigns = ["flow", "err"]
+    ∧ Gen.executeInitFlow = Flow.terminate := by decide
+
+/-- the deferred function (translated): a panic met with no error pending becomes (TerminateWithError, Fatal Error);
+    without a panic it changes nothing -/
+theorem gen_defer_fn_spec (f : Flow) (e p : Bool) :
+    Gen.executeDeferFn f e p = if e && p then (Flow.terminateWithError, false, true) else (f, e, false) := by
+  cases e <;> cases p <;> simp [Gen.executeDeferFn]
+
+/-- Processor.execute: the translated loop inside the translated deferred recover, results handed back as the
+    regenerated signature says -/
+def execute {σ τ : Type} (run : σ → τ → Outcome σ) (s : σ) (l : List τ) : σ × Flow × Bool × Bool :=
+  executeWithRecover Gen.executeHasNamedResults Gen.executeDeferFn Flow.terminate run Gen.executeInitFlow true s l
+
+/-- without a panic the frame is exactly the translated loop `Gen.executeLoop` (no Fatal Error) -/
+theorem execute_no_panic_eq_loop {σ τ} (run : σ → τ → σ × Flow × Bool) (s : σ) (l : List τ) :
+    execute (fun s st => Outcome.done (run s st).1 (run s st).2.1 (run s st).2.2) s l
+      = ((Gen.executeLoop run s l).1, (Gen.executeLoop run s l).2.1, (Gen.executeLoop run s l).2.2, false) := by
+  unfold execute
+  have key : ∀ (l : List τ) (s : σ),
+      executeWithRecover Gen.executeHasNamedResults Gen.executeDeferFn Flow.terminate
+        (fun s st => Outcome.done (run s st).1 (run s st).2.1 (run s st).2.2) Flow.terminate true s l
+      = ((Gen.executeLoop run s l).1, (Gen.executeLoop run s l).2.1, (Gen.executeLoop run s l).2.2, false) := by
+    intro l
+    induction l with
+    | nil => intro s; rfl
+    | cons st rest ih =>
+      intro s
+      rw [executeWithRecover, Gen.executeLoop]
+      rcases hr : run s st with ⟨s', fl, ok⟩
+      cases ok
+      · cases fl <;> rfl
+      · cases fl
+        · simpa using ih s'
+        all_goals rfl
+  exact key l s
+
+/-- PANIC NEVER COMMITS: the statements in front succeed, one statement panics — whatever follows it, execute returns
+    (TerminateWithError, the Fatal Error); under the translated condition Execute does not auto-commit, the ending is
+    `error`, and the end of the run is `Session.finish … .error`: every table as at the last commit point -/
+theorem panic_never_commits {σ τ} (run : σ → τ → Outcome σ) (s : σ) (pre post : List τ) (st : τ) (sp : σ)
+    (hpre : ∀ s' x, x ∈ pre → ∃ s'', run s' x = .done s'' .terminate true)
+    (hst : run (pre.foldl (fun s x => (run s x).state) s) st = .panic sp) :
+    execute run s (pre ++ st :: post) = (sp, Flow.terminateWithError, false, true)
+    ∧ (∀ a, Gen.autoCommitCond false Flow.terminateWithError a = false)
+    ∧ endingOf false Flow.terminateWithError false = .error := by
+  refine ⟨?_, fun a => by cases a <;> rfl, rfl⟩
+  unfold execute
+  induction pre generalizing s with
+  | nil =>
+    simp only [List.nil_append, List.foldl_nil] at hst ⊢
+    rw [executeWithRecover, hst]
+    rfl
+  | cons x rest ih =>
+    obtain ⟨s'', hx⟩ := hpre s x (by simp)
+    rw [List.cons_append, executeWithRecover, hx]
+    simp only [List.foldl_cons, hx, Outcome.state] at hst
+    have h := ih s'' (fun s' y hm => hpre s' y (by simp [hm])) hst
+    simpa [Gen.executeInitFlow] using h
+
+/-- … and the end of such a run over the session machine is the abnormal ending -/
+theorem panic_run_ends_as_error {C} (s : State C) :
+    frameEnd (Gen.autoCommitCond false Flow.terminateWithError true) s = finish s .error := by
+  simpa [endingOf] using frame_end_eq_finish s false Flow.terminateWithError
+
+/-- WHY THE RESULTS MUST BE NAMED: the same frame with unnamed results hands back the zero values after the
+    recovered panic — (Terminate, nil) — and Execute goes on to the implicit COMMIT of a half-executed procedure -/
+theorem unnamed_results_swallow_panic {σ τ} (run : σ → τ → Outcome σ) (s : σ) (post : List τ) (st : τ) (sp : σ)
+    (hst : run s st = .panic sp) :
+    executeWithRecover false Gen.executeDeferFn Flow.terminate run Gen.executeInitFlow true s (st :: post)
+      = (sp, Flow.terminate, true, false)
+    ∧ Gen.autoCommitCond true Flow.terminate true = true := by
+  constructor
+  · rw [executeWithRecover, hst]; rfl
+  · decide
+
 /-! ## non-vacuity -/
+
+/-- INSERT; a statement that panics; INSERT — the second INSERT is not executed, the error is the Fatal Error, no
+    auto-commit; with unnamed results the same run would have committed -/
+example :
+    let run : Nat → Nat → Outcome Nat := fun s st => if st = 1 then .panic (s + 100) else .done (s + 1) .terminate true
+    execute run 0 [0, 1, 2] = (101, .terminateWithError, false, true)
+    ∧ executeWithRecover false Gen.executeDeferFn Flow.terminate run Gen.executeInitFlow true 0 [0, 1, 2] = (101, .terminate, true, false) := by
+  decide
+
 
 /-- a three-statement run whose second statement is EXIT: the third is not executed, nothing is committed -/
 example :
